@@ -753,6 +753,17 @@ def plumbing(ctx):
         cs = [c for c in f.calls(lambda r: r['path'] and r['path'].endswith('SemanticState::new'))]
         okb = len(cs) == 1 and strip(f.expr_of_operand(cs[0]['term']['args'][0]))[0] == 'arg'
     ob(['C01', 'C02'], 'lib-build', okb, 'build() passes its pointer_size argument to SemanticState::new', f)
+    f = P.fns.get('build_script')
+    okbs = False
+    det = ''
+    if f:
+        cs = [c for c in f.calls(lambda r: r['path'] == 'build')]
+        if len(cs) == 1:
+            a = f.expr_of_operand(cs[0]['term']['args'][2])
+            det = show(a)[:160]
+            okbs = a[0] == 'bin' and a[1] == 'Div' and is_int(a[3], 8) and ('str', 'CARGO_CFG_TARGET_POINTER_WIDTH') in list(walk(a[2])) and \
+                bool(find_calls(a[2], 'env::var')) and bool(find_calls(a[2], 'parse'))
+    ob(['C01', 'C02'], 'build_script', okbs, 'build_script takes the pointer size from the TARGET (CARGO_CFG_TARGET_POINTER_WIDTH / 8), not from the host: %s' % det, f)
     f = one('type_definition::Region::size')
     e = single_exit(f) if f else None
     okr = e is not None and is_call(e, 'Type::size') and strip(e[2][0]) == ('field', ('arg', 1, 'self'), 'type_ref')
